@@ -29,6 +29,7 @@ pub static mut LAST_REPORTED_DEPTH: u8 = 0;
 pub static mut LAST_PV_FIRST: Option<Move> = None;
 pub static mut MAX_DEPTH_SEEN: u8 = 0;
 
+#[derive(Clone)]
 pub struct Game {
     pub zobrist: ZobristHash,
 }
